@@ -795,6 +795,11 @@ class ManifestRecursiveLoader:
                         else:
                             new_mpath = mpath[:-len(compr)-1]
 
+                        # never rename onto another Manifest (e.g.
+                        # Manifest.gz next to the top-level Manifest)
+                        if new_mpath in self.loaded_manifests:
+                            continue
+
                         # do the rename!
                         self.loaded_manifests[new_mpath] = m
                         self.save_manifest(new_mpath)
